@@ -8,12 +8,13 @@ NOTE = ("Trusted: Lean 4.33.0 kernel (axioms propext, Classical.choice, Quot.sou
         "Modelled rather than verified: Vec/HashMap/BinaryHeap/String as lists, u8/u16/usize as Nat, panics as a result value. ")
 
 CLAIMS = {
- 'C01': ("PARTIAL (stages 1 and 2 of 3). STAGE 2 (roundtrip_forest): for EVERY well-formed adjacency list whose traversal meets no ring closure (all forests: any size, numbering, bond order, number of components, all atom and bond kinds) the complete round trip "
-         "walk, write, read, build yields a graph isomorphic to the original along the visit order (Spec.Iso; simulation proof kids_sim/comps_sim/rtc_forest between the recursive traversal walkRec and the builder, T-wr for the text leg; walkRec is compared with the real walk on every run, field EVR). "
+ 'C01': ("STAGE 3 (C01.roundtrip, Lemmas/RtcRing.lean rtc): for EVERY well-formed adjacency list, rings included (any size, numbering, bond order, number of components, all atom and bond kinds), on which the traversal succeeds (it fails only by needing a 100th open ring number, known finding D17) the complete round trip "
+         "walk, write, read, build yields a graph isomorphic to the original along the visit order (Spec.Iso). Proof: simulation between the recursive traversal walkRec and the builder with a state invariant (node edges = processed half-bonds, resolved unless the pool holds the pair open; pool open iff exactly one half-bond processed; builder's open table = pool), "
+         "T-wr for the text leg, builder commutes with the C07 shorthands. NOT a theorem: walk (loop model) = walkRec (compared with the real walk on every run, field EVR); fuel sufficiency of walkRec. "
          "STAGE 1, for EVERY adjacency list with an atom that passes validation and every accepted string: the traversal's events are written without a panic, the reader ACCEPTS the text and "
          "replays exactly the traversal's events (no atom, bond, charge or ring closure lost, duplicated, retargeted or relabelled between the traversal's event stream and the re-read one — via T-wr), so building from the text equals building "
-         "from the traversal's events (text eliminated); whatever is built is a well-formed simple graph (C10) that the traversal accepts (C11). MISSING: stage 3, the round-trip core for graphs with rings (ring-number pool simulation) — in progress; "
-         "for those the isomorphism itself is decided on every run by the oracle (walk, write, read, build on the real code; isomorphism test along the traversal order with a bounded backtracking fallback) and the S-graph/S-read correspondence. "
+         "from the traversal's events (text eliminated); whatever is built is a well-formed simple graph (C10) that the traversal accepts (C11). "
+         "Additionally the isomorphism itself is decided on every run by the oracle (walk, write, read, build on the real code; isomorphism test along the traversal order with a bounded backtracking fallback) and the S-graph/S-read correspondence. "
          "Known findings D17 (>99 open ring closures) and D19 (empty graph writes the empty string) are listed.",
          "Lean 4 proof that text is eliminated from the round trip (T-wr + conformance + builder invariant) + isomorphism oracle on the real round trip", "4.1"),
  'C02': ("PARTIAL (stage 1). Theorems in Purr/Props/C02.lean for every event history: one atom per atom token in order of appearance with the written attributes (mark adjusted per C03's convention for non-root atoms with a hydrogen); "
@@ -21,11 +22,11 @@ CLAIMS = {
          "side's kind (reversed when directional) — the full 64-row reconcile table. MISSING: build = denote for the independent non-incremental denotation (partners in written order, nearest-preceding-open pairing); decided on every run by "
          "the oracle's independent interpreter of SMILES compared with Builder::build() on every accepted string, incl. bond-list order.",
          "Lean 4 proof of the per-event clauses of the denotation + differential comparison with an independent SMILES interpreter", "4.2"),
- 'C03': ("PARTIAL (stages 1 and 2). STAGE 2 (stereo_forest): for EVERY well-formed forest the complete round trip gives every atom its original kind (up to the C07 shorthands, which commute with flipping) with the @/@@ mark flipped iff the bond it was "
-         "entered through sits at an odd index of its bond list, component roots keep theirs, and the re-read bond list is the original with exactly that bond moved to the front. STAGE 1, for every atom kind, bond list and entry position: the walker hands a child entered through bond index j to the follower with its @/@@ mark flipped iff j + hasH is odd; the builder's "
+ 'C03': ("STAGE 3 (stereo_roundtrip): for EVERY well-formed adjacency list, rings included, on which the traversal succeeds (D17 excepted) the complete round trip gives every atom its original kind (up to the C07 shorthands, which commute with flipping) with the @/@@ mark flipped iff the bond it was "
+         "entered through sits at an odd index of its bond list, component roots keep theirs, the re-read bond list is the original with exactly that bond moved to the front, and every bond (ring closures included) keeps its kind as seen from each end, so directional bonds keep their direction. NOT a theorem: walk = walkRec (compared on every run). STAGE 1, for every atom kind, bond list and entry position: the walker hands a child entered through bond index j to the follower with its @/@@ mark flipped iff j + hasH is odd; the builder's "
          "extend flips iff hasH; the composition flips iff j is odd, i.e. iff moving the entry bond to the front is an odd permutation of the neighbour order (hydrogen counted first in the graph, after the preceding atom in text); flipping is an "
-         "involution that only exchanges @ and @@ and touches no other field, so every other configuration is carried unchanged; ring closures and extend record directional bonds with mutually reversed kinds. MISSING: the lift to graphs with rings (RTC stage 3). "
-         "For those: geometric oracle on the real round trip (signed permutation between original and re-read neighbour orders, hydrogen included) and S-graph correspondence over a stereo family (root / chain / ring-closing centre x arrival index 0-3 x +-H x both marks).",
+         "involution that only exchanges @ and @@ and touches no other field, so every other configuration is carried unchanged; ring closures and extend record directional bonds with mutually reversed kinds. "
+         "Additionally: geometric oracle on the real round trip (signed permutation between original and re-read neighbour orders, hydrogen included) and S-graph correspondence over a stereo family (root / chain / ring-closing centre x arrival index 0-3 x +-H x both marks).",
          "Lean 4 proof of the local parity law (walker, builder and their composition, all kinds and positions) + geometric permutation-parity oracle", "4.3"),
  'C04': ("PARTIAL. Theorems in Purr/Props/C04.lean: completeness on the writer's image — every protocol-conformant non-empty history (any nesting, dots in branches, any ring numbers and bond kinds, every atom kind with every "
          "bracket-field combination) is spelled by the writer as a string the reader accepts (corollary of T-wr, C09); every accepted string has a conformant non-empty history whose normal-form text is accepted again and replays the same "
@@ -78,9 +79,9 @@ CLAIMS = {
          "The full converse 'well-formed => Ok' is false of the code beyond 99 simultaneously open ring closures (panic, known finding D17 under C06), so the theorem states Ok-or-panic; below that bound C13's theorems apply. "
          "Tie: verdict, events and writer text of walk compared with the model on exhaustive small graphs (garbage included) and single-defect mutations.",
          "Lean 4 proof (validate decides an independent well-formedness predicate; traversal invariant) + differential correspondence on exhaustive small graphs and mutations", "4.11"),
- 'C12': ("PARTIAL (stages 1 and 2). STAGE 2 (substituent_order_forest): for EVERY well-formed forest, after the complete round trip walk, write, read, build every atom's re-read bond list is its original list in the original order, renumbered (injectively) by visit "
-         "position, with only the bond it was entered through moved to the front; component roots unchanged. STAGE 1: a newly reached atom's other bonds are scheduled in exactly the order of its bond list and only the bond(s) back to the atom it was entered from are taken out; a component root "
-         "schedules its whole list; on re-reading, the builder records the arrival bond first and appends every later bond / ring digit at the end of the head's list, in place. MISSING: graphs with rings (RTC stage 3). For those: order oracle on the real "
+ 'C12': ("STAGE 3 (substituent_order): for EVERY well-formed adjacency list, rings included, on which the traversal succeeds (D17 excepted), after the complete round trip walk, write, read, build every atom's re-read bond list is its original list in the original order, renumbered (injectively) by visit "
+         "position, with only the bond it was entered through moved to the front; component roots unchanged; ring-closure digits and branches stay interleaved as listed. NOT a theorem: walk = walkRec (compared on every run). STAGE 1: a newly reached atom's other bonds are scheduled in exactly the order of its bond list and only the bond(s) back to the atom it was entered from are taken out; a component root "
+         "schedules its whole list; on re-reading, the builder records the arrival bond first and appends every later bond / ring digit at the end of the head's list, in place. Additionally: order oracle on the real "
          "round trip (each re-read bond list must equal the original with the arrival bond moved to the front, under the depth-first order defined by the property text) and S-graph correspondence over every order of every bond list of all small graphs.",
          "Lean 4 proof of the scheduling-order lemmas of traversal and builder + exact bond-list order oracle on the real round trip", "4.12"),
  'C13': ("Theorems in Purr/Props/C13.lean about the ring-number pool, for every sequence of hits (every reachable interleaving of openings and closings): the pool invariant "
